@@ -3,11 +3,13 @@ harness and the Lean driver on an operation file, parsing the observation stream
 import os, subprocess, sys, time, json, hashlib, fcntl, random
 
 ROOT = os.path.dirname(os.path.dirname(os.path.abspath(__file__)))
-HARNESS_DIR = os.path.join(ROOT, "harness")
+# the harness crate (path dependencies on /repo/*).  Mutation tooling only (tools/run_seeded_wt.py) points this at a scratch
+# copy of the crate whose path dependencies name a scratch worktree carrying a seeded change; the registered checks never set it.
+HARNESS_DIR = os.environ.get("VERIF_HARNESS_DIR") or os.path.join(ROOT, "harness")
 LEAN_DIR = os.path.join(ROOT, "lean")
 DRIVER = os.path.join(LEAN_DIR, ".lake", "build", "bin", "driver")
-WORK = os.path.join(ROOT, "work")
-REPLAYS = os.path.join(ROOT, "replays")
+WORK = os.environ.get("VERIF_WORK_DIR") or os.path.join(ROOT, "work")
+REPLAYS = os.environ.get("VERIF_REPLAYS_DIR") or os.path.join(ROOT, "replays")
 # mutation runs (tools/run_seeded.py) write their evidence elsewhere so that /verif/evidence always describes /repo itself
 EVIDENCE = os.environ.get("VERIF_EVIDENCE_DIR") or os.path.join(ROOT, "evidence")
 
